@@ -438,10 +438,10 @@ def generate(rng, tier):
     yield from seq_cases([], ["empty"])
     # every constructor alone, several operand draws
     for c in WRITABLE:
-        for _ in range(6 if quick else 40):
+        for _ in range(6 if quick else 30):
             yield from seq_cases([gen_op(rng, c)], ["single:" + c])
     # every motif alone and in context
-    for _ in range(300 if quick else 6000):
+    for _ in range(300 if quick else 3000):
         yield from seq_cases(motif(rng), ["motif"])
     # thorough: every ordered pair of constructors, every shorthand-relevant triple
     if not quick:
@@ -455,7 +455,7 @@ def generate(rng, tier):
                 for c in heads:
                     yield from seq_cases([gen_op(rng, a), gen_op(rng, b), gen_op(rng, c)], ["triple"])
     # sequences
-    for i in range(700 if quick else 25000):
+    for i in range(700 if quick else 6000):
         n = rng.randint(0, 40) if i % 4 else rng.randint(0, 6)
         yield from seq_cases(gen_seq(rng, n), ["seq"])
     # inherited operand-spelling classes (C04): wild names / CR strings / huge integral reals
@@ -463,8 +463,8 @@ def generate(rng, tier):
         c = rng.choice(["GraphicsState", "XObject", "TextDraw", "LineWidth", "MoveTo", "TextFont", "BeginMarkedContent"])
         yield from seq_cases([gen_op(rng, c, wild=True)], ["wild"], wild=True)
     # parse side
-    yield from keyword_cases(rng, 6 if quick else 60)
-    yield from stream_cases(rng, 500 if quick else 15000, 30)
+    yield from keyword_cases(rng, 6 if quick else 40)
+    yield from stream_cases(rng, 500 if quick else 5000, 30)
     yield from inline_cases(rng, 60 if quick else 1500)
 
 
